@@ -259,9 +259,7 @@ func zzNewWorld(kl, nkeys, lenset int) *zzWorld {
 			tok := rt.Bytes(n+".tok", tokenSize)
 			dl := rt.I64(n + ".deadline")
 			rt.Assume(rt.Or(dl == 0, rt.And(dl > w.now-shift, dl < 1<<32)))
-			if dl != 0 {
-				dl += shift
-			}
+			dl = rt.IteI64(dl != 0, dl+shift, dl)
 			zzStore(w.mc, key, v0, fl, tok, dl)
 			w.ref.E[i] = model.Entry{Present: true, Data: v0, Flags: fl, Deadline: dl}
 		}
